@@ -316,7 +316,7 @@ def run(ctx, config='rel-all'):
             ctx.anchor_missing('R3', 'Vec::' + name)
             continue
         m = M(ctx, b, config)
-        calls = [e for e in m.own if e.kind == 'call' and e.callee and 'raw_vec::RawVec' in e.callee and name.replace('try_', '') in e.callee.split('::')[-1]]
+        calls = [e for e in m.own if e.kind == 'call' and e.callee and 'raw_vec::RawVec' in e.callee and name == e.callee.split('::')[-1]]
         okv = len(calls) == 1 and m.canon(calls[0].args[1])[0] == LEN and calls[0].args[2] == ('param', 2)
         if okv:
             ctx.ok('R3', 'Vec::%s forwards (len, additional) to RawVec::%s' % (name, calls[0].callee.split('::')[-1]), 'argument identity')
@@ -354,6 +354,13 @@ def run(ctx, config='rel-all'):
             ctx.violation('R5', fn, 'realloc-result-dropped', '%s (re)allocates the buffer but does not store the returned pointer into self.ptr: after the arena moved the block the vector would keep using the old address' % fn, b.get('span'))
     ctx.floor('R5', n5, 4, 'RawVec functions that (re)allocate')
     check_unwind_consistency(ctx, db)
+    from . import drainfilter, splice, c19
+    drainfilter.check(ctx, config, 'O3')
+    splice.check(ctx, config, 'O4')
+    # ---- R7 std's RawVec/Vec compute every byte size / capacity with checked arithmetic (CapacityOverflow instead of a wrapped size);
+    # shared with C19.R1, restricted to the forked vector
+    ns, nn, _ = c19.check_size_sinks(ctx, db, config, 'R7', lambda sp: sp.startswith('src/collections/raw_vec.rs') or sp.startswith('src/collections/vec.rs'))
+    ctx.floor('R7', ns, 60, 'size sinks in vec.rs / raw_vec.rs')
 
 
 def check_unwind_consistency(ctx, db):
